@@ -9,8 +9,8 @@ PROBE_CTX = 2000
 def blocking_cfg(name, kinds, leak, wakes, held, buffered=True, hook_under_lock=False):
     b = lambda x: "TRUE" if x else "FALSE"
     with open(os.path.join(SPEC, name), "w") as f:
-        f.write("SPECIFICATION Spec\nCONSTANTS\n  Kinds <- %s\n  LeakRLock = %s\n  CloseWaitWakes = %s\n  MuHeldDuringWait = %s\n  ResultChBuffered = %s\n  HookUnderLock = %s\n  MaxMeta = 2\n"
-                "INVARIANTS NoLockLeak NoOverrun NoStuckHandOver NoHookUnderLock\nPROPERTIES EveryCallReturns\nCHECK_DEADLOCK FALSE\n" % (kinds, b(leak), b(wakes), b(held), b(buffered), b(hook_under_lock)))
+        f.write("SPECIFICATION Spec\nCONSTANTS\n  Kinds <- %s\n  LeakRLock = %s\n  CloseWaitWakes = %s\n  MuHeldDuringWait = %s\n  ResultChBuffered = %s\n  HookUnderLock = %s\n  Hooks = %s\n  MaxMeta = 2\n"
+                "INVARIANTS NoLockLeak NoOverrun NoStuckHandOver NoHookUnderLock\nPROPERTIES EveryCallReturns\nCHECK_DEADLOCK FALSE\n" % (kinds, b(leak), b(wakes), b(held), b(buffered), b(hook_under_lock), b(kinds == "KindsC")))
     return name
 
 
